@@ -200,7 +200,7 @@ class Matrix(Case):
 
     def inputs(self, mk):
         p = self.params
-        specs = [shell_spec(mk, "ABCD"[i], l, K, M) for i, (l, K, M) in enumerate(zip(p["ls"], p["Ks"], p["Ms"]))]
+        specs = cm.specs_from(mk, p)
         nf = sum(cm.nfun(l, t) * M for l, t, M in zip(p["ls"], p["types"], p["Ms"]))
         T = [[mk.var(f"T{i}_{j}") for j in range(nf)] for i in range(p["nt"])] if p.get("nt") else None
         return dict(specs=specs, tol=_tol(mk), T=T)
